@@ -118,11 +118,66 @@ func c10Compare(cs c10Case) string {
 	return ""
 }
 
+// terms that share an id but differ in '+' or WITH: a verdict cached under too coarse a key
+// (the bare id) shows up as a compositionality failure here
+var c10RichAtoms = []string{"GPL-2.0-only", "GPL-2.0-only WITH Classpath-exception-2.0", "Apache-1.0+", "Apache-1.0"}
+
+// c10RichObs: bit m-1 = Satisfies(expr, subset m of c10RichAtoms), m = 1..15; 0xFFFF = unusable.
+func c10RichObs(expr string) uint16 {
+	var v uint16
+	for m := 1; m < 16; m++ {
+		var al []string
+		for i, a := range c10RichAtoms {
+			if m&(1<<uint(i)) != 0 {
+				al = append(al, a)
+			}
+		}
+		r := Sat(expr, al)
+		if r.Panic != "" || r.IsErr {
+			return 0xFFFF
+		}
+		if r.Ok {
+			v |= 1 << uint(m-1)
+		}
+	}
+	return v
+}
+
+func c10RichCompare(cs c10Case) string {
+	a, b := c10RichObs(cs.E1), c10RichObs(cs.E2)
+	text := "(" + cs.E1 + ") " + cs.Op + " (" + cs.E2 + ")"
+	o := c10RichObs(text)
+	if a == 0xFFFF || b == 0xFFFF || o == 0xFFFF {
+		return ""
+	}
+	want := a & b
+	if cs.Op == "OR" {
+		want = a | b
+	}
+	if o != want {
+		for m := 1; m < 16; m++ {
+			if (o^want)&(1<<uint(m-1)) != 0 {
+				var al []string
+				for i, x := range c10RichAtoms {
+					if m&(1<<uint(i)) != 0 {
+						al = append(al, x)
+					}
+				}
+				return fmt.Sprintf("not compositional: Satisfies(%q, %q) = %v but Satisfies(%q) = %v and Satisfies(%q) = %v under the same list", text, al, o&(1<<uint(m-1)) != 0, cs.E1, a&(1<<uint(m-1)) != 0, cs.E2, b&(1<<uint(m-1)) != 0)
+			}
+		}
+	}
+	return ""
+}
+
 func init() {
 	kinds["c10.case"] = func(raw json.RawMessage) string {
 		var cs c10Case
 		if err := json.Unmarshal(raw, &cs); err != nil {
 			return "bad case"
+		}
+		if cs.Kind == "compose-rich" {
+			return c10RichCompare(cs)
 		}
 		return c10Compare(cs)
 	}
@@ -257,6 +312,67 @@ func c10Run(c *Ctx) {
 						msg = "compositionality violated (not reproduced on re-check)"
 					}
 					c.Report(Violation{Kind: "c10.case", Class: "compose:" + op, Key: text, Msg: msg, Size: len(text), Case: mustJSON(cs)})
+				}
+			}
+		}
+	}
+
+	// compositionality over terms that share an id but differ in '+' / WITH
+	rich := TreesUpTo(2, len(c10RichAtoms))
+	var res []string
+	for n := 1; n <= 2; n++ {
+		for _, t := range rich[n] {
+			res = append(res, t.RenderMin(c10RichAtoms))
+		}
+	}
+	c.Bound("compositionality_rich", map[string]any{"atoms": c10RichAtoms, "operands_max_leaves": 2, "operands": len(res), "allowed": "all 15 non-empty subsets of the atoms"})
+	robs := make([]uint16, len(res))
+	rhave := make([]bool, len(res))
+	rget := func(i int) uint16 {
+		if !rhave[i] {
+			robs[i], rhave[i] = c10RichObs(res[i]), true
+		}
+		return robs[i]
+	}
+	for i := range res {
+		for j := range res {
+			pi++
+			if !c.Mine(pi) {
+				continue
+			}
+			if c.Expired() {
+				return
+			}
+			a, b := rget(i), rget(j)
+			if a == 0xFFFF || b == 0xFFFF {
+				c.Inc("skipped_panic")
+				continue
+			}
+			for _, op := range []string{"AND", "OR"} {
+				text := "(" + res[i] + ") " + op + " (" + res[j] + ")"
+				o := c10RichObs(text)
+				c.Inc("states")
+				c.Add("transitions", 15)
+				c.Inc("evaluations")
+				if o == 0xFFFF {
+					c.Inc("skipped_panic")
+					continue
+				}
+				c.Add("traces", 15)
+				want := a & b
+				if op == "OR" {
+					want = a | b
+				}
+				if want != 0 && want != 0x7fff {
+					c.Inc("nontrivial")
+				}
+				if o != want {
+					cs := c10Case{Kind: "compose-rich", E1: res[i], E2: res[j], Op: op}
+					msg := c10RichCompare(cs)
+					if msg == "" {
+						msg = "compositionality violated (not reproduced on re-check)"
+					}
+					c.Report(Violation{Kind: "c10.case", Class: "compose-rich:" + op, Key: text, Msg: msg, Size: len(text), Case: mustJSON(cs)})
 				}
 			}
 		}
